@@ -549,6 +549,15 @@ def run(ctx):
             if g not in gn:
                 raise AnalysisError('C01: line pattern %s lost its group %r (anchor vanished)' % (attr, g))
         idx = [gn.index(g) for g in LINE_GROUPS]
+        # what a group can hold: the connection tag, the interface and the message name are words, the id is digits - a group that can also
+        # swallow `>`, blanks or `(` binds text beyond its field on lines whose arguments happen to contain those characters
+        for g_, want_ in (('conn', 'word'), ('type', 'word'), ('message', 'word'), ('id', 'digit')):
+            alpha_ = rx.group_alphabet(pat, g_)
+            if alpha_ is None:
+                continue
+            ok_ = all((ch.isalnum() or ch == '_') if want_ == 'word' else ch.isdigit() for ch in alpha_)
+            ctx.check(ok_, 'C01.12', 'group-alphabet:%s:%s' % (attr, g_), init.loc(pats[attr][1]), 'group %s of %s holds only %s characters' % (g_, attr, want_),
+                      'group %s of %s can also hold %s: on a line whose arguments contain such characters it binds text beyond its field' % (g_, attr, sorted(ch for ch in alpha_ if not (ch.isalnum() or ch == '_'))[:6]))
         ctx.check(idx == sorted(idx), 'C01.12', 'group-order:%s' % attr, init.loc(pats[attr][1]),
                   'groups appear as timestamp < conn < type < id < message < args in %s' % attr,
                   'named groups of %s are out of order: %s' % (attr, gn))
